@@ -2,7 +2,8 @@
 """collect confirmed round-2 seeded changes from /tmp/mutout2 and the lane logs into /verif/seeded/R2-<id>-mN/"""
 import json, os, re, shutil, glob
 OUT = "/verif/seeded"
-logs = sorted(glob.glob("/tmp/mt/mt5.log") + glob.glob("/tmp/mt/mt6.log") + glob.glob("/tmp/mt2/mt*.log"))
+logs = sorted(glob.glob("/tmp/mt/mt5.log") + glob.glob("/tmp/mt/mt6.log") + glob.glob("/tmp/mt2/mt*.log"),
+              key=lambda p: int(re.search(r"mt(\d+)\.log", p).group(1)))
 res = {}
 conf = {}
 for lg in logs:
